@@ -127,6 +127,16 @@ def run_notify(plan):
             rec.emit(k="in", op="notify", dsts=[ep], per=len(eg.values))     # initial notification
             eg.subscribe(sdenv.EP[ep])
             subscribed.add(ep)
+        elif step[0] == "sub_unsub":   # subscribes and leaves in the same instant: the initial notification is sent all the same
+            ep = step[1]
+            rec.emit(k="in", op="notify", dsts=[ep], per=len(eg.values))
+            eg.subscribe(sdenv.EP[ep])
+            eg.unsubscribe(sdenv.EP[ep])
+            subscribed.discard(ep)
+        elif step[0] == "unsub":       # (ids are counted per destination whether or not it is subscribed at the moment)
+            rec.emit(k="in", op="unsub", dst=step[1])
+            eg.unsubscribe(sdenv.EP[step[1]])
+            subscribed.discard(step[1])
         else:
             events = step[1]
             rec.emit(k="in", op="notify", dsts=sorted(subscribed), per=len(events))
@@ -152,9 +162,27 @@ def notify_traces(seed, count):
             if rng.random() < 0.8:
                 plan.append(("burn", ep, rng.choice([65535 - rng.randint(1, 12), 65533, 65534, 65535, 3, 65535 - rng.randint(1, 6),
                                                      2 * 65535 - rng.randint(0, 8)])))
+        here = set()
+        if i % 3 == 2:       # a subscriber that comes and leaves in one instant while nobody else is subscribed, and comes back later
+            ep = rng.choice(eps)
+            plan += [("sub_unsub", ep), ("sub", ep), ("notify", [1, 2])]
+            here.add(ep)
         for ep in eps:
-            plan.append(("sub", ep))
+            if ep not in here:
+                plan.append(("sub", ep))
+        here = set(eps)
         for _ in range(rng.randint(4, 12)):
+            if rng.random() < 0.25:       # a subscriber leaves (also right after it came: its initial notification is still in preparation)
+                ep = rng.choice(eps)
+                k = rng.random()
+                if k < 0.4 and ep in here:
+                    plan.append(("unsub", ep))
+                    here.discard(ep)
+                elif ep not in here:
+                    plan.append(("sub_unsub", ep) if k > 0.7 else ("sub", ep))
+                    if k <= 0.7:
+                        here.add(ep)
+                continue
             # one datagram carries one notification per event: rounds of up to five events straddle the wrap in every alignment
             plan.append(("notify", rng.choice([[1], [2], [1, 2], [1, 2, 3], [3, 1, 2, 4], [1, 2, 3, 4, 5], [5, 4, 3]])))
         out.append({"cfg": cfg, "ev": monpass.add_adv(run_notify(plan)), "sched": plan, "mode": "notify"})
